@@ -23,9 +23,12 @@ func (r Range) Index(i int) any { return r.b + i }
 
 // AsArray converts the range into an array.
 func (r Range) AsArray() []any {
-	a := make([]any, 0, r.Len())
-	for i := r.b; i <= r.e; i++ {
-		a = append(a, i)
+	n := r.Len()
+	a := make([]any, 0, n)
+	// count the elements instead of comparing with r.e: i <= r.e never fails when r.e is the
+	// largest int
+	for i := 0; i < n; i++ {
+		a = append(a, r.b+i)
 	}
 	return a
 }
